@@ -137,6 +137,51 @@ pub struct OpPattern {
 
 impl OpPattern {
     fn matches(&self, node: &OperatorNode, graph: &Graph, symbols: &mut SymbolMap) -> bool {
+        self.matches_inputs(node, graph, symbols) && self.constants_preserve_rank(node, graph)
+    }
+
+    /// Check that constants matched by constant patterns cannot add
+    /// dimensions to the operator's output via broadcasting.
+    ///
+    /// Constant patterns match single-element tensors of any rank (eg. `0.`
+    /// matches a tensor with shape `[1, 1]`). Fusions treat the matched
+    /// constant as a scalar and drop it from the graph. This is only valid
+    /// if another operand has at least as many dimensions as the constant,
+    /// otherwise the unfused operator broadcasts its output to the constant's
+    /// rank (eg. `[3] + [1, 1] => [1, 3]`).
+    fn constants_preserve_rank(&self, node: &OperatorNode, graph: &Graph) -> bool {
+        let has_const_pattern = self
+            .inputs
+            .iter()
+            .any(|pat| matches!(&*pat.kind, PatternKind::Constant(_)));
+        if !has_const_pattern {
+            return true;
+        }
+
+        let rank = |id: &Option<NodeId>| match id.and_then(|id| graph.get_node(id)) {
+            Some(Node::Constant(const_node)) => Some(const_node.ndim()),
+            Some(Node::Value(value)) => value.ndim(),
+            _ => None,
+        };
+
+        node.input_ids().iter().enumerate().all(|(i, id)| {
+            let const_rank = match id.and_then(|id| graph.get_node(id)) {
+                Some(Node::Constant(const_node)) if const_node.item().is_some() => {
+                    const_node.ndim()
+                }
+                _ => return true,
+            };
+            if const_rank == 0 {
+                return true;
+            }
+            node.input_ids()
+                .iter()
+                .enumerate()
+                .any(|(j, other)| j != i && rank(other).is_some_and(|r| r >= const_rank))
+        })
+    }
+
+    fn matches_inputs(&self, node: &OperatorNode, graph: &Graph, symbols: &mut SymbolMap) -> bool {
         if node.operator().name() != self.name {
             return false;
         }
